@@ -221,6 +221,39 @@ func schedBodies() (all []schedBody, firstCustom int) {
 		must(err)
 		return goStr(b)
 	})
+	add("Conv0(marked (m,5)): the retained tuple conversion on a value marked M1 with a member marked M3", func(st *immState) string {
+		b, err := st.Conv[0](cty.TupleVal([]cty.Value{cty.StringVal("m"), cty.NumberIntVal(5).Mark(markM3)}).Mark(markM1))
+		must(err)
+		return goStr(b)
+	})
+	add("Conv0(marked (n,6)): the retained tuple conversion on a value marked M2", func(st *immState) string {
+		b, err := st.Conv[0](cty.TupleVal([]cty.Value{cty.StringVal("n"), cty.NumberIntVal(6)}).Mark(markM2))
+		must(err)
+		return goStr(b)
+	})
+	add("Conv1(marked map): the retained map->object conversion on a value marked M2 with an element marked M1", func(st *immState) string {
+		b, err := st.Conv[1](cty.MapVal(map[string]cty.Value{"k1": cty.StringVal("p").Mark(markM1), "k2": cty.StringVal("q")}).Mark(markM2))
+		must(err)
+		return goStr(b)
+	})
+	add("msgpack round trip of a refined unknown number", func(st *immState) string {
+		b, err := ctymsgpack.Marshal(st.V[3], cty.Number)
+		must(err)
+		v, err := ctymsgpack.Unmarshal(b, cty.Number)
+		must(err)
+		return goStr(v)
+	})
+	add("msgpack round trip of a list holding a refined unknown string and a refined unknown list", func(st *immState) string {
+		in := cty.TupleVal([]cty.Value{
+			cty.UnknownVal(cty.String).Refine().NotNull().StringPrefixFull("pre-").NewValue(),
+			cty.UnknownVal(cty.List(cty.Bool)).Refine().CollectionLengthLowerBound(2).CollectionLengthUpperBound(5).NewValue(),
+		})
+		b, err := ctymsgpack.Marshal(in, in.Type())
+		must(err)
+		v, err := ctymsgpack.Unmarshal(b, in.Type())
+		must(err)
+		return goStr(v)
+	})
 	add("Conv1(map p,q): the retained map->object conversion", func(st *immState) string {
 		b, err := st.Conv[1](cty.MapVal(map[string]cty.Value{"k1": cty.StringVal("p"), "k2": cty.StringVal("q")}))
 		must(err)
